@@ -10,7 +10,7 @@ import time
 from . import runner as R
 from .core import derive
 from .known import classify
-from .p_c17 import gen_case, mask_negated, shrink_case, spec_features
+from .p_c17 import gen_case, mask_negated, seed_features, shrink_case, spec_features
 from .tiers import META, TIERS
 
 
@@ -143,7 +143,18 @@ def run_check_c17(tier, seed, workers=None, cases=None):
         # directed known-finding / regression cases
         for ent in known:
             d = ent.get("directed")
-            if not d:
+            if d and d.get("same_interpreter_twice"):
+                one = Server(0)
+                try:
+                    diff = one.values(d["case"]) != one.values(d["case"])
+                finally:
+                    one.close()
+                if ent["status"] == "known" and diff:
+                    kf_seen[ent["id"]] = kf_seen.get(ent["id"], 0) + 1
+                elif ent["status"] == "known":
+                    out_lines.append("NOTE: known finding %s no longer reproduces on this tree" % ent["id"])
+                continue
+            if not d or "pythonhashseeds" not in d:
                 continue
             pair = [Server(h) for h in d["pythonhashseeds"]]
             try:
@@ -163,6 +174,9 @@ def run_check_c17(tier, seed, workers=None, cases=None):
         unknown_cases = []
         for idx in mism:
             case = gen_case((seed, pid, idx), cfg)
+            if seed_features(case):
+                kf_seen["KF-C17-2"] = kf_seen.get("KF-C17-2", 0) + 1
+                continue
             feats = set()
             for sp in case["specs"]:
                 feats |= spec_features(sp)
@@ -200,6 +214,9 @@ def run_check_c17(tier, seed, workers=None, cases=None):
             s.close()
     by_sig = {}
     for v in inproc:
+        if v.get("kf"):
+            kf_seen[v["kf"]] = kf_seen.get(v["kf"], 0) + v.get("count_in_worker", 1)
+            continue
         by_sig.setdefault(v["sig_id"], []).append(v)
     for sig_id, lst in sorted(by_sig.items()):
         rep = min(lst, key=lambda v: v.get("minimised_case_size", 10 ** 9))
@@ -243,6 +260,7 @@ def run_check_c17(tier, seed, workers=None, cases=None):
                 "history:rebuilt_schema_runs": tot["cases"],
             },
             "probes": probes,
+            "run_digest": R.fast_digest_cases(digests[H[0]]),
             "real_vs_stub": meta["real_vs_stub"],
             "known_findings_seen": kf_seen,
             "d42_digest": R.src_digest(),
